@@ -1505,3 +1505,251 @@ def more_spellings(tree):
     if stats[0]:
         ast.fix_missing_locations(tree)
     return stats[0]
+
+
+# ------------------------------------------------------------------------------------------------------------------
+# whole-package: a PRIVATE class of the package that only serves as a base / mixin of other package classes is read as if
+# its members were written in those classes (the pull-up refactoring undone).  Exactness: a member is copied only where
+# attribute lookup on the subclass finds exactly it -- the subclass does not define the name itself and no base listed
+# BEFORE the private one (nor their package ancestors) defines it; a member using zero-argument super() is copied only
+# when the private class is the first base (the MRO tail it sees is then the one the subclass would see).
+def _dotted(node):
+    if isinstance(node, ast.Name):
+        return node.id
+    if isinstance(node, ast.Attribute):
+        b = _dotted(node.value)
+        return None if b is None else b + "." + node.attr
+    return None
+
+
+def flatten_private_bases(mods):
+    """mods: {module name: (tree, is_pkg)}; returns a list of notes 'Sub <- _Base (members)'"""
+    import builtins as _bi
+
+    def abs_mod(name, is_pkg, level, target):
+        if level == 0:
+            return target or ""
+        pkg = name if is_pkg else name.rpartition(".")[0]
+        base = pkg.split(".") if pkg else []
+        if level > 1:
+            base = base[: len(base) - (level - 1)]
+        return ".".join(base + ([target] if target else []))
+
+    def bindings(name):
+        """module-level name -> ('def', module, name) | ('imp', module, obj) | ('mod', module)"""
+        tree, is_pkg = mods[name]
+        out = {}
+        for st in tree.body:
+            if isinstance(st, (ast.ClassDef, ast.FunctionDef, ast.AsyncFunctionDef)):
+                out[st.name] = ("def", name, st.name)
+            elif isinstance(st, ast.Assign):
+                for t in st.targets:
+                    if isinstance(t, ast.Name):
+                        out[t.id] = ("def", name, t.id)
+            elif isinstance(st, ast.AnnAssign) and isinstance(st.target, ast.Name):
+                out[st.target.id] = ("def", name, st.target.id)
+            elif isinstance(st, ast.Import):
+                for a in st.names:
+                    out[(a.asname or a.name).split(".")[0]] = ("mod", a.name if a.asname else a.name.split(".")[0])
+            elif isinstance(st, ast.ImportFrom):
+                m = abs_mod(name, is_pkg, st.level, st.module)
+                for a in st.names:
+                    out[a.asname or a.name] = ("imp", m, a.name)
+        return out
+
+    binds = {n: bindings(n) for n in mods}
+
+    def canon(b, depth=0):
+        # follow imports of package names to their definition
+        while b and b[0] == "imp" and depth < 6:
+            m, o = b[1], b[2]
+            if m in mods and o in binds[m]:
+                b = binds[m][o]
+            elif (m + "." + o) in mods:
+                return ("mod", m + "." + o)
+            else:
+                return b
+            depth += 1
+        return b
+
+    def class_of(modname, expr):
+        """(module, ClassDef) of a base expression if it is a class of the package"""
+        if isinstance(expr, ast.Name):
+            b = canon(binds[modname].get(expr.id))
+            if b and b[0] == "def" and b[1] in mods:
+                for st in mods[b[1]][0].body:
+                    if isinstance(st, ast.ClassDef) and st.name == b[2]:
+                        return b[1], st
+        elif isinstance(expr, ast.Attribute) and isinstance(expr.value, ast.Name):
+            b = canon(binds[modname].get(expr.value.id))
+            if b and b[0] == "mod" and b[1] in mods:
+                for st in mods[b[1]][0].body:
+                    if isinstance(st, ast.ClassDef) and st.name == expr.attr:
+                        return b[1], st
+        return None
+
+    def members(cls):
+        out = {}
+        for st in cls.body:
+            if isinstance(st, (ast.FunctionDef, ast.AsyncFunctionDef, ast.ClassDef)):
+                out.setdefault(st.name, []).append(st)
+            elif isinstance(st, ast.Assign):
+                for t in st.targets:
+                    if isinstance(t, ast.Name):
+                        out.setdefault(t.id, []).append(st)
+            elif isinstance(st, ast.AnnAssign) and isinstance(st.target, ast.Name):
+                out.setdefault(st.target.id, []).append(st)
+        return out
+
+    def defined_in_chain(modname, expr, seen=None):
+        """names defined by a base expression and its package ancestors; None when an ancestor is outside the package
+        and not one of the inert ones"""
+        seen = seen if seen is not None else set()
+        got = class_of(modname, expr)
+        if got is None:
+            d = _dotted(expr) or ""
+            if d.split(".")[-1] in ("object", "Generic", "ABC", "Protocol") or isinstance(expr, ast.Subscript):
+                return set()
+            return None
+        m, c = got
+        if id(c) in seen:
+            return set()
+        seen.add(id(c))
+        names = set(members(c))
+        for b in c.bases:
+            sub = defined_in_chain(m, b, seen)
+            if sub is None:
+                return None
+            names |= sub
+        return names
+
+    notes = []
+    for _round in range(3):
+        changed = False
+        for modname, (tree, _is_pkg) in mods.items():
+            for cls in [st for st in tree.body if isinstance(st, ast.ClassDef)]:
+                for i, bexpr in enumerate(list(cls.bases)):
+                    got = class_of(modname, bexpr)
+                    if got is None:
+                        continue
+                    bmod, base = got
+                    if not base.name.startswith("_") or base.name.startswith("__") or base.decorator_list:
+                        continue
+                    own = members(cls)
+                    earlier = set()
+                    exact = True
+                    for e in cls.bases[:i]:
+                        d = defined_in_chain(modname, e)
+                        if d is None:
+                            exact = False
+                            break
+                        earlier |= d
+                    if not exact:
+                        continue
+                    moved = []
+                    abort = False
+                    need_import = {}
+                    for st in base.body:
+                        names = [st.name] if isinstance(st, (ast.FunctionDef, ast.AsyncFunctionDef, ast.ClassDef)) else ([t.id for t in st.targets if isinstance(t, ast.Name)] if isinstance(st, ast.Assign) else ([st.target.id] if isinstance(st, ast.AnnAssign) and isinstance(st.target, ast.Name) else None))
+                        if names is None:
+                            if isinstance(st, ast.Expr) and isinstance(st.value, ast.Constant):
+                                continue  # docstring
+                            if isinstance(st, ast.Pass):
+                                continue
+                            abort = True
+                            break
+                        if names == ["__slots__"]:
+                            continue
+                        if any(n in own or n in earlier for n in names):
+                            continue  # shadowed on the subclass: lookup never reaches it
+                        uses_super = any(isinstance(n, ast.Call) and isinstance(n.func, ast.Name) and n.func.id == "super" for n in ast.walk(st))
+                        if uses_super and i != 0:
+                            abort = True
+                            break
+                        # module-level names the member reads must mean the same in the subclass's module
+                        bound_local = set()
+                        for n in ast.walk(st):
+                            if isinstance(n, ast.Name) and isinstance(n.ctx, ast.Load):
+                                nm = n.id
+                                if nm in binds[bmod] and bmod != modname:
+                                    src = canon(binds[bmod][nm])
+                                    if nm in binds[modname]:
+                                        if canon(binds[modname][nm]) != src:
+                                            abort = True
+                                    else:
+                                        need_import[nm] = (bmod, src)
+                        if abort:
+                            break
+                        moved.append(st)
+                    if abort:
+                        continue
+                    # splice
+                    for st in moved:
+                        cls.body.append(copy.deepcopy(st))
+                    for nm, (bm, src) in need_import.items():
+                        imp = ast.ImportFrom(module=bm, names=[ast.alias(name=nm, asname=None)], level=0)
+                        ast.copy_location(imp, tree.body[0])
+                        ast.fix_missing_locations(imp)
+                        tree.body.insert(0, imp)
+                        binds[modname][nm] = ("imp", bm, nm)
+                    new_bases = []
+                    for b in base.bases:
+                        tgt = class_of(bmod, b)
+                        d = _dotted(b)
+                        if d in ("object",):
+                            continue
+                        # the base's own bases, spelled so that they resolve in the subclass's module
+                        if isinstance(b, ast.Name) and bmod != modname:
+                            if b.id in binds[modname]:
+                                if canon(binds[modname][b.id]) != canon(binds[bmod].get(b.id)):
+                                    new_bases = None
+                                    break
+                            else:
+                                imp = ast.ImportFrom(module=bmod, names=[ast.alias(name=b.id, asname=None)], level=0)
+                                ast.copy_location(imp, tree.body[0])
+                                ast.fix_missing_locations(imp)
+                                tree.body.insert(0, imp)
+                                binds[modname][b.id] = ("imp", bmod, b.id)
+                        if any(ast.dump(b) == ast.dump(x) for x in cls.bases):
+                            continue
+                        new_bases.append(copy.deepcopy(b))
+                    if new_bases is None:
+                        continue
+                    cls.bases[i : i + 1] = new_bases
+                    if not cls.bases and not cls.keywords:
+                        pass
+                    for kw in base.keywords:
+                        if not any(k.arg == kw.arg for k in cls.keywords):
+                            cls.keywords.append(copy.deepcopy(kw))
+                    notes.append("%s:%s <- %s:%s (%s)" % (modname, cls.name, bmod, base.name, ", ".join(getattr(s, "name", None) or "attr" for s in moved)))
+                    changed = True
+                    break
+        if not changed:
+            break
+    # a flattened private base nothing refers to any more is dropped (its members now live in its subclasses)
+    flattened = {(n.split(" <- ")[1].split(" (")[0]) for n in notes}
+    for key in sorted(flattened):
+        bmod, bname = key.split(":")
+        referenced = False
+        for modname, (tree, _p) in mods.items():
+            for n in ast.walk(tree):
+                if isinstance(n, ast.ClassDef) and n.name == bname and modname == bmod:
+                    continue
+                if isinstance(n, ast.Name) and n.id == bname:
+                    referenced = True
+                if isinstance(n, ast.Attribute) and n.attr == bname:
+                    referenced = True
+                if isinstance(n, ast.Constant) and isinstance(n.value, str) and n.value == bname:
+                    referenced = True  # __all__, string annotations
+        if referenced:
+            continue
+        tree = mods[bmod][0]
+        tree.body[:] = [st for st in tree.body if not (isinstance(st, ast.ClassDef) and st.name == bname)]
+        for modname, (tree2, _p) in mods.items():
+            for st in list(tree2.body):
+                if isinstance(st, ast.ImportFrom) and any(a.name == bname for a in st.names):
+                    st.names[:] = [a for a in st.names if a.name != bname]
+                    if not st.names:
+                        tree2.body.remove(st)
+        notes.append("%s dropped (no reference left)" % key)
+    return notes
